@@ -45,7 +45,7 @@ def run(ctx):
         a = K.arg_renders(c)
         return a[0] == "self.cert" and a[1] == "issuer" and a[3] == "now"
     sid_guard = eq_matcher(r"^self\.sid$", r"^TbsCert::subject_key_identifier\(self\.cert\)$")
-    dig_guard = eq_matcher(r"^Context::finish\(context⟵DigestAlgorithm::start\(self\.digest_algorithm\)\)$", r"^self\.message_digest$")
+    dig_guard = eq_matcher(r"^Context::finish\(\w+⟵DigestAlgorithm::start\(self\.digest_algorithm\)\)$", r"^self\.message_digest$")
     sinks = [
         ("verify_sig", MustPass(f, K.sink_verify_sig, name="verify_sig")),
         ("Cert::validate_ee_at(self.cert, issuer, _, now)", MustPass(f, sink_validate_ee, name="Cert::validate_ee_at")),
@@ -124,23 +124,38 @@ def run(ctx):
         ctx.ob("R-FLOW", "SignedObject::verify:args", ok,
                "signature is verified over encode_verify(self.signed_attrs) under the embedded certificate's key",
                where=b.loc, detail=detail)
-        # digest context is fed from the content
-        fe = [c for c in b.calls() if c.name == "for_each"]
+        # digest context is fed from the content: every update of the context started under self.digest_algorithm takes
+        # an element of an iteration over self.content — as a for_each closure or as a loop, whatever the locals are called
+        START = r"\w+⟵DigestAlgorithm::start\(self\.digest_algorithm\)"
         ok = False
-        detail = None
-        for c in fe:
-            a = K.arg_terms(c)
-            detail = [render(x) for x in a]
-            if render(a[0]) == "self.content" and c.body.term(c.bb)["args"] and a[1][0] == "closure":
-                cb = f.body(a[1][1])
-                caps = [render(x) for x in a[1][2]]
-                if cb is not None:
-                    ups = [c2 for c2 in cb.calls() if c2.res == "crypto::digest::Context::update"]
-                    if len(ups) == 1:
-                        ua = K.arg_renders(ups[0])
-                        ok = ua[0].startswith("^context") and ua[1] == "x" and \
-                            caps == ["context⟵DigestAlgorithm::start(self.digest_algorithm)"]
-                        detail = {"for_each": detail, "update": ua, "captures": caps}
+        detail = []
+        ups = [c for c in b.calls() if c.res == "crypto::digest::Context::update"]
+        for c in ups:                                   # loop form
+            ua = K.arg_renders(c)
+            detail.append({"update": ua})
+            if re.match("^%s$" % START, ua[0]) and re.match(r"^Iterator::next\(\w+⟵(OctetString::iter\()?self\.content\)?\)↓Some\.0$", ua[1]):
+                ok = True
+            else:
+                ok = False
+                break
+        if not ups:
+            for c in [c for c in b.calls() if c.name == "for_each"]:
+                a = K.arg_terms(c)
+                d = [render(x) for x in a]
+                if re.match(r"^(OctetString::iter\()?self\.content\)?$", render(a[0])) and a[1][0] == "closure":
+                    cb = f.body(a[1][1])
+                    caps = [render(x) for x in a[1][2]]
+                    if cb is not None:
+                        cups = [c2 for c2 in cb.calls() if c2.res == "crypto::digest::Context::update"]
+                        if len(cups) == 1 and cb.arg_count == 2:
+                            ua = K.arg_renders(cups[0])
+                            ok = ua[0].startswith("^") and ua[1] == (cb.local_name(2) or "?") and \
+                                len(caps) == 1 and re.match("^%s$" % START, caps[0]) is not None
+                            d = {"for_each": d, "update": ua, "captures": caps}
+                detail.append(d)
+        # and the finished context is that same context
+        fin = [K.arg_renders(c)[0] for c in b.calls() if c.res == "crypto::digest::Context::finish"]
+        ok = ok and len(fin) == 1 and re.match("^%s$" % START, fin[0]) is not None
         ctx.ob("R-FLOW", "SignedObject::verify:digest-input", ok,
                "the digest compared with message_digest is computed over self.content under self.digest_algorithm",
                where=b.loc, detail=detail)
@@ -201,8 +216,19 @@ def check_roa_coverage(ctx, f):
                    "every %s ROA prefix is tested with contains_roa against the certificate's %s resources, "
                    "failure rejects" % (fam, fam), where=where, detail=detail)
         if not res:
-            ctx.ob("R-CHK", "RouteOriginAttestation::verify:each-%s-prefix-covered" % fam, False,
-                   "no loop over self.%s_addrs found" % fam, where=b.loc)
+            # the same ∀-check written with all / any / find
+            alt = K.forall_by_combinator(
+                f, b, r"^\w+⟵self\.%s_addrs$" % fam, "Iterator::next(iter⟵self.%s_addrs)↓Some.0" % fam,
+                K.pred_lit(r"^IpBlocks::contains_roa\(ResourceCert::%s_resources\(cert\), Iterator::next\(iter⟵self\.%s_addrs\)↓Some\.0\)$" % (fam, fam)),
+                coll_rx=r"^self\.%s_addrs$" % fam)
+            for where, ok, detail in alt:
+                n += 1
+                ctx.ob("R-CHK", "RouteOriginAttestation::verify:each-%s-prefix-covered" % fam, ok,
+                       "every %s ROA prefix is tested with contains_roa against the certificate's %s resources, "
+                       "failure rejects" % (fam, fam), where=where, detail=detail)
+            if not alt:
+                ctx.ob("R-CHK", "RouteOriginAttestation::verify:each-%s-prefix-covered" % fam, False,
+                       "no loop over self.%s_addrs found" % fam, where=b.loc)
     # contains_roa: true only if some range has min <= addr.min and max >= addr.max
     fn = "repository::resources::ipres::IpBlocks::contains_roa"
     b = f.body(fn)
@@ -214,9 +240,13 @@ def check_roa_coverage(ctx, f):
         mp = MustPass(f, lambda c: False,
                       guard_fn=lambda bd, s, bb, lo=lo, hi=hi: K.order_literal_edges(bd, s, bb, lo, hi), name=name)
         ok = mp.holds(fn)
+        detail = None if ok else K.why(f, mp, fn)
+        if not ok:
+            alt = K.exists_by_combinator(f, b, r"^\w+⟵self$", "Iterator::next(iter⟵self)↓Some.0", K.order_lit(lo, hi))
+            if alt is not None:
+                ok, detail = alt
         ctx.ob("R-GRD", "IpBlocks::contains_roa:" + name, ok,
-               "contains_roa returns true only if for some block %s" % name, where=b.loc,
-               detail=None if ok else K.why(f, mp, fn))
+               "contains_roa returns true only if for some block %s" % name, where=b.loc, detail=detail)
 
 
 def check_aspa_coverage(ctx, f):
